@@ -285,6 +285,12 @@ def run(ctx):
             if cr["verdict"] is None:
                 # outside the model (the harness says why): no correspondence, the oracle still applies
                 notes.append("%s: not comparable with the model (%s); oracle only" % (cr["case"]["id"], cr.get("skipped")))
+            elif cr["verdict"] == "ok-proj" and (ctx.pid in ("C01", "C02", "C09", "C10") or (ctx.pid == "C12" and cr["case"]["stub"])):
+                # the real bytes are not the model's although every projected part agrees: the difference is in
+                # what the projection leaves out (the self-check line, result names of the -stub block, bodies)
+                corr_breaks.append(dict(what="model and implementation agree on the structural projection but not byte "
+                                             "for byte (ok-proj): a difference outside the projection",
+                                        case=sample_case(cr)))
             elif cr["verdict"] not in OK_VERDICTS:
                 kinds = diff_kinds(cr) if cr["verdict"] == "DIFF-structure" else None
                 rel = RELEVANT_DIFF.get(ctx.pid)
@@ -397,6 +403,12 @@ def run(ctx):
                                          fails=[("the generated file does not parse (%s): %s"
                                                  % ("-stub" if cr["case"]["stub"] else "flags as given",
                                                     str(cr["facts"].get("parse_error"))[:160]), "no mock generated")]))
+            if cr["kind"] == "out" and cr["verdict"] == "ok-proj":
+                owner = "C07" if cr["case"]["stub"] else ("C08" if cr["case"]["resets"] else "C03")
+                if ctx.pid == owner:
+                    corr_breaks.append(dict(what="the real output differs from the model's byte for byte although every "
+                                                 "projected part agrees (ok-proj): the method bodies / the -stub block differ",
+                                            case=sample_case(cr)))
             if cr["kind"] != "out":
                 continue
             evaluated += 1
